@@ -7,7 +7,7 @@ RULE = ('symbol bitmaps of all 48 sizes with random contents (python twin of the
         'with a dark top-left module exhaustively; random bitmaps 1..14 x 1..14 at densities 1/8..7/8; constructed topologies: '
         'checkerboards (diagonal contacts only), nested rings, rings with islands, combs, spirals, single holes, full, single '
         'module, stripes; light top-left bitmaps for the model correspondence only (outside the property); zero width and '
-        'non-dividing lengths; pixels() and unicode() on the small bitmaps and on 8 symbols; non-trivial = bitmap with a dark '
+        'non-dividing lengths; one random bitmap of about 250 x 320 modules (more than 65535 outline edges, far beyond any symbol); pixels() and unicode() on the small bitmaps and on 8 symbols; non-trivial = bitmap with a dark '
         'top-left module and at least one light module')
 THEOREMS = 'C17_graph_is_boundary, C17_evenodd_fills_dark, C17_check_sound, C17_wellformed_step, C17_pixels'
 ASSUMPTIONS = ['the even-odd fill of Spec/EvenOdd.v (ray to the left through module centres) is the fill rule of SVG/PDF for '
@@ -117,6 +117,12 @@ def gen_cases(rng, tier, ctx):
             bits = [rng.below(8) < num for _ in range(h * w)]
             bits[0] = True
             add('path', w, bits, 'random-large')
+    # one bitmap far larger than any symbol (more than 65535 outline edges): index widths of the path bookkeeping
+    for _ in range(1 if tier == 'quick' else 3):
+        h, w = 230 + rng.below(30), 300 + rng.below(40)
+        bits = [rng.below(2) == 1 for _ in range(h * w)]
+        bits[0] = True
+        add('path', w, bits, 'random-huge')
     # malformed
     add('path', 0, [True], 'malformed')
     add('path', 2, [True, False, True], 'malformed')
@@ -130,9 +136,25 @@ def gen_cases(rng, tier, ctx):
 
 
 def model_line(c, io):
+    if c['cat'] == 'random-huge' and io.startswith('ok path='):
+        # far beyond any symbol: only the verified certificate check runs on the model side (the model of the path
+        # algorithm itself appends to lists and is quadratic)
+        return c['line'].replace('path ', 'path_check ', 1) + ' ' + io[len('ok path='):]
     if c['op'] == 'path' and io.startswith('ok path='):
         return c['line'] + ' ' + io[len('ok path='):]
     return c['line']
+
+
+def canon_impl_case(c, io):
+    if c['cat'] == 'random-huge' and io.startswith('ok path='):
+        return 'huge check=1'
+    return canon_impl(io)
+
+
+def canon_model_case(c, mo, prof):
+    if c['cat'] == 'random-huge':
+        return 'huge check=1' if mo == 'ok 1' else 'huge check=0 (%s)' % mo[:60]
+    return canon_model(mo, prof)
 
 
 def canon_impl(io):
